@@ -145,6 +145,10 @@ def embedded(ctx, rule):
     b = ctx.body("detector::SourceMapRef::get_embedded_sourcemap")
     calls = [(bi, q.shape(b.expr_of_call(t))) for bi, t in q.calls_to(b, "decoder::decode_data_url")]
     ok = len(calls) == 1 and calls[0][1] == "decoder::decode_data_url(SourceMapRef::get_url(arg1))" and has_fact(b, calls[0][0], {}, ("true", "str::starts_with(SourceMapRef::get_url(arg1),'data:')", None))
+    if not ok:
+        # `url.starts_with("data:").then(|| decode_data_url(url)).transpose()`
+        rets = [sh.replace("^", "") for sh, _, _ in q.def_shapes(b, 0, {})]
+        ok = rets == ["Option::transpose(bool::then(str::starts_with(SourceMapRef::get_url(arg1),'data:'),\u03bb(decoder::decode_data_url(SourceMapRef::get_url(arg1)))))"]
     ctx.check(ok, rule, b.path, "data:->decode", "a reference whose URL starts with 'data:' is decoded with decode_data_url", detail=str(calls))
     g = ctx.body("detector::SourceMapRef::get_url")
     rets = sorted(q.shape(g.expr_of_call(t)) for bi, t in g.calls())
